@@ -73,6 +73,7 @@ fn build(u: &mut Unstructured) -> arbitrary::Result<Case> {
         end_magic: bool::arbitrary(u)?,
         zoom_count_prefix: bool::arbitrary(u)?,
         no_summary: u.int_in_range(0..=3)? == 0,
+        ragged: u.int_in_range(0..=2)? == 0,
     };
     Ok(Case { chroms, content: Content::Wig { blocks }, params })
 }
